@@ -110,10 +110,10 @@ func (c *call) requested() (string, interface{}, bool) {
 	case "SetScheduleConfig":
 		return "schedule", decode(c.sched.Clone()), true
 	case "SetReplicationConfig":
-		return "replication", decode(c.repl), true
+		return "replication", decodeRepl(c.repl), true
 	case "SetPDServerConfig":
 		if c.pd.DashboardAddress == "auto" || c.pd.DashboardAddress == "none" {
-			return "pd-server", decode(c.pd), true
+			return "pd-server", decodePD(c.pd), true
 		}
 	case "SetLabelPropertyConfig":
 		return "label-property", decode(c.lp), true
@@ -390,7 +390,7 @@ func (g *gen) schedule(s *server.Server) *call {
 }
 
 var goodLabels = []string{"zone", "rack", "host", "dc", "$region", "a.b/c-d_e"}
-var badLabels = []string{"", "ra ck", "zone,rack", "-zone", "zone-", "z$"}
+var badLabels = []string{"", "ra ck", "zone,rack", "-zone", "zone-", "z$", " zone", "rack ", "/rack", "zön"}
 
 func (g *gen) replication(s *server.Server) *call {
 	cfg := s.GetReplicationConfig()
@@ -418,8 +418,14 @@ func (g *gen) replication(s *server.Server) *call {
 				add("location-labels=out:drops-isolation-level")
 			}
 		case 5:
-			cfg.LocationLabels = append(append([]string(nil), cfg.LocationLabels...), g.pick(badLabels))
-			add("location-labels=edge:malformed-label")
+			l := append([]string(nil), cfg.LocationLabels...)
+			at := g.rng.Intn(len(l) + 1)
+			l = append(l[:at:at], append([]string{g.pick(badLabels)}, l[at:]...)...)
+			cfg.LocationLabels = l
+			if at > 0 && g.rng.Intn(2) == 0 {
+				cfg.IsolationLevel = l[g.rng.Intn(at)] // a legal label standing before the malformed one
+			}
+			add(fmt.Sprintf("location-labels=out:malformed-label@%d/%d", at, len(l)))
 		case 6:
 			if len(cfg.LocationLabels) > 0 && g.rng.Intn(3) != 0 {
 				cfg.IsolationLevel = cfg.LocationLabels[g.rng.Intn(len(cfg.LocationLabels))]
